@@ -35,7 +35,7 @@ type famScenario struct {
 	Ops []famOp `json:"ops"`
 }
 
-var famLits = []string{"a", "b", "foo", "__gensym", "__anon", "x9"}
+var famLits = []string{"a", "b", "foo", "__gensym", "__anon", "x9", "#lz", "?q", "a.b", ".dot", "k:", "x-y", "A", "a1"}
 var famPrefixes = []string{"__gensym", "__anon", "__loop", "__g", "p"}
 
 func genFamName(r *kernel.RNG) famName {
